@@ -19,6 +19,7 @@ package main
 import (
 	"go/ast"
 	"go/token"
+	"strings"
 )
 
 func init() {
@@ -389,8 +390,21 @@ func factsTakeoverConnect(repo string, o *out) {
 					calls(st.Init, guard)
 					if as, ok := st.Init.(*ast.AssignStmt); ok && len(as.Rhs) == 1 && exprString(as.Rhs[0]) == "writeMessage(c,resp)" {
 						failSeen = true
-						if len(st.Body.List) == 1 && st.Else == nil && exprString(st.Cond) == "(err!=nil)" {
-							if r, ok := st.Body.List[0].(*ast.ReturnStmt); ok && len(r.Results) == 2 &&
+						if n := len(st.Body.List); n >= 1 && st.Else == nil && exprString(st.Cond) == "(err!=nil)" {
+							// logging in front of the return is nothing
+							onlyLogs := true
+							for _, b := range st.Body.List[:n-1] {
+								es, ok := b.(*ast.ExprStmt)
+								if !ok {
+									onlyLogs = false
+									break
+								}
+								call, ok := es.X.(*ast.CallExpr)
+								if !ok || !strings.HasPrefix(exprString(call.Fun), "log.") {
+									onlyLogs = false
+								}
+							}
+							if r, ok := st.Body.List[n-1].(*ast.ReturnStmt); ok && onlyLogs && len(r.Results) == 2 &&
 								exprString(r.Results[0]) == "nil" && exprString(r.Results[1]) == "err" {
 								failReturnsOnly = true
 							}
